@@ -29,9 +29,14 @@ theorem disable_is_diff (b : Blocker) (t : List Str) (x : Str) :
 theorem tag_exists_iff_mem (s : HState) (t : Str) : s.tagExists t = true ↔ t ∈ s.b.tagsEnabled := by
   unfold HState.tagExists; simp
 
-/-- **loading a serialized engine keeps the caller's enabled set** -/
-theorem reload_keeps_tags (b : Blocker) (x : Str) : x ∈ b.reload.tagsEnabled ↔ x ∈ b.tagsEnabled := by
-  unfold Blocker.reload; simp only; rw [use_is_assign]
+/-- **loading a serialized engine keeps the caller's enabled set**, whichever engine (with whichever
+    tag set) produced the bytes -/
+theorem load_keeps_tags (b producer : Blocker) (x : Str) :
+    x ∈ (b.loadFrom producer).tagsEnabled ↔ x ∈ b.tagsEnabled := by
+  unfold Blocker.loadFrom; simp only; rw [use_is_assign]
+
+theorem reload_keeps_tags (b : Blocker) (x : Str) : x ∈ b.reload.tagsEnabled ↔ x ∈ b.tagsEnabled :=
+  load_keeps_tags b b x
 
 /-- optimisation and incremental addition leave the enabled set alone -/
 theorem optimize_keeps_tags (b : Blocker) : b.optimizeNow.tagsEnabled = b.tagsEnabled := rfl
@@ -76,6 +81,7 @@ theorem tags_after_history (s : HState) (ops : List HOp) (x : Str) :
       cases hh : s.b.addFilter r with
       | mk b' ok => rw [hh] at this; simp only at this ⊢; rw [this]; exact h y
     | reload => simp only [hstep, tagSem]; rw [reload_keeps_tags]; exact h y
+    | loadFresh t => simp only [hstep, tagSem]; rw [load_keeps_tags]; exact h y
 
 /-! ### a tagged rule takes part in matching iff its tag is enabled -/
 
